@@ -820,14 +820,102 @@ pub fn run_c17(report: &mut Report, budget: Duration) {
             report.sample(s);
         }
     }
-    report.set("states", (fresh.len() as u64).max(1));
+    // ---- repetition histories: X evaluated k times, then every Y; X ranges over the alphabet and over
+    // expressions that fail only after other resolvers did their work; plans fault EVERY query with a
+    // given prefix, so they mean the same thing at every position and on the fresh reference connection.
+    // (Catches state that builds up over several evaluations - budgets, caches, counters - and state
+    // that is only reset on the success path.)
+    let failing: Vec<String> = ["(FLTR-F AND AS-GONE)", "(AS-GONE AND FLTR-F)", "(RS-X AND AS-GONE)", "((AS-A AND AS-B) AND AS-GONE)", "(AS65001 AND AS-GONE)", "(FLTR-F AND (FLTR-F AND AS-GONE))"].iter().map(|s| (*s).to_string()).collect();
+    let xs: Vec<String> = alpha.iter().cloned().chain(failing).collect();
+    let ks: Vec<usize> = if thorough { vec![1, 2, 3, 5, 9, 17, 33] } else { vec![2, 9] };
+    let rep_irrd = Irrd::start(model.db.clone());
+    let mut rep_runs = 0u64;
+    let mut rep_histories = 0u64;
+    let mut fresh_under: BTreeMap<(String, String), String> = BTreeMap::new();
+    'rep: for x in &xs {
+        // the distinct queries X sends on a fresh, fault-free connection
+        rep_irrd.set_plan(Plan::default());
+        _ = rep_irrd.take_log();
+        _ = run_history(rep_irrd.port, &[x.clone()], Duration::from_secs(20));
+        let mut prefixes: Vec<Option<String>> = vec![None];
+        for l in rep_irrd.take_log() {
+            let q = Some(l.query.clone());
+            if !prefixes.contains(&q) {
+                prefixes.push(q);
+            }
+        }
+        for prefix in &prefixes {
+            for (fi, f) in faults.iter().enumerate() {
+                if prefix.is_none() && fi > 0 {
+                    continue;
+                }
+                if !thorough && fi == 1 {
+                    continue;
+                }
+                let plan = prefix.as_ref().map_or_else(Plan::default, |p| Plan { faults: vec![], fault_on_query: vec![(p.clone(), *f)] });
+                let plan_key = prefix.as_ref().map_or_else(|| "no fault".to_string(), |p| format!("{f:?} answer to every '{p}'"));
+                for &k in &ks {
+                    for y in &alpha {
+                        if Instant::now() > deadline {
+                            capped_any = true;
+                            break 'rep;
+                        }
+                        let mut exprs: Vec<String> = std::iter::repeat(x.clone()).take(k).collect();
+                        exprs.push(y.clone());
+                        rep_irrd.set_plan(plan.clone());
+                        let got = run_history(rep_irrd.port, &exprs, Duration::from_secs(30));
+                        rep_runs += 1;
+                        rep_histories += 1;
+                        _ = rep_irrd.take_log();
+                        let case = json!({"history": format!("{k} x '{x}', then '{y}'"), "fault": plan_key});
+                        let results = match got {
+                            Ok(r) => r,
+                            Err(e) => {
+                                report.violation(&format!("C17:history-does-not-complete:{}", e.split(':').next().unwrap_or("")), &format!("the history did not complete: {e}"), case);
+                                continue;
+                            }
+                        };
+                        for (pos, r) in results.iter().enumerate() {
+                            steps += 1;
+                            let e = &exprs[pos];
+                            let want = if let Some(w) = fresh_under.get(&(e.clone(), plan_key.clone())) {
+                                w.clone()
+                            } else {
+                                rep_irrd.set_plan(plan.clone());
+                                let w = norm(&run_history(rep_irrd.port, &[e.clone()], Duration::from_secs(20)).map(|mut v| v.remove(0)).unwrap_or_else(Err));
+                                rep_runs += 1;
+                                _ = rep_irrd.take_log();
+                                _ = fresh_under.insert((e.clone(), plan_key.clone()), w.clone());
+                                w
+                            };
+                            let have = norm(r);
+                            if have != want {
+                                let after_failure = results[..pos].iter().any(Result::is_err);
+                                report.violation(
+                                    &format!("C17:result-depends-on-history:{}:repeated{}", if after_failure { "after-failed-evaluation" } else { "after-successful-evaluations" }, if prefix.is_some() { ":with-injected-error" } else { "" }),
+                                    &format!("evaluation {pos} ('{e}') of the history evaluates to {have:?}, on a fresh connection (same fault plan) to {want:?}"),
+                                    case.clone(),
+                                );
+                                break;
+                            }
+                        }
+                    }
+                }
+            }
+        }
+    }
+    drop(rep_irrd);
+    runs += rep_runs;
+    report.set("repetition_histories", rep_histories);
+    report.set("repetition_counts", json!(ks));
+    report.set("states", (fresh.len() as u64 + fresh_under.len() as u64).max(1));
     report.set("transitions", steps);
     report.set("traces_validated_against_impl", runs);
     report.set("histories", histories.len() as u64);
     report.set("reference_results", fresh.len() as u64);
     report.set("max_history_length", max_len as u64);
     report.set("exhaustive", !capped_any);
-    report.set("rule", "every sequence of expressions (alphabet of 8: as-set, aut-num, route-set, filter-set with two objects, AND of two as-sets, unknown as-set, AS without routes, literal) up to the length bound, evaluated on ONE real RpslEvaluator, without faults and with one injected IRR error answer (D, E, F) at every query index of every member; differential oracle: every member's result equals the result of the same expression with the same fault on a fresh connection (reference results = states); transitions = evaluations compared");
+    report.set("rule", "every sequence of expressions (alphabet of 8: as-set, aut-num, route-set, filter-set with two objects, AND of two as-sets, unknown as-set, AS without routes, literal) up to the length bound, evaluated on ONE real RpslEvaluator, without faults and with one injected IRR error answer (D, E, F) at every query index of every member; differential oracle: every member's result equals the result of the same expression with the same fault on a fresh connection (reference results = states); transitions = evaluations compared; plus repetition histories: X evaluated k times then every Y, X over the alphabet and over expressions that fail only after other resolvers ran, without faults and with an error answer to EVERY occurrence of each query X sends");
     report.assume("connection loss after the first response is not injected: irrc spins on EOF (dependency), see DESIGN");
 }
 
